@@ -74,9 +74,15 @@ impl InlineCache {
   /// for the provided class
   pub fn get_property_cache(&self, inline_slot: usize, class: ObjRef<Class>) -> Option<usize> {
     debug_assert!(inline_slot < self.property.len());
+    #[cfg(feature = "verif")]
+    if laythe_core::verif::force_cache_miss() {
+      return None;
+    }
     match unsafe { self.property.get_unchecked(inline_slot) } {
       Some(cache) => {
         if cache.class == class {
+          #[cfg(feature = "verif")]
+          laythe_core::verif::probe(laythe_core::verif::probes::CACHE_PROPERTY_HIT);
           Some(cache.property_index)
         } else {
           None
@@ -94,6 +100,8 @@ impl InlineCache {
     class: ObjRef<Class>,
     property_index: usize,
   ) {
+    #[cfg(feature = "verif")]
+    laythe_core::verif::probe(laythe_core::verif::probes::CACHE_PROPERTY_MISS);
     self.set_property(
       inline_slot,
       Some(PropertyCache {
@@ -105,6 +113,8 @@ impl InlineCache {
 
   /// Clear the property cache at a given slot
   pub fn clear_property_cache(&mut self, inline_slot: usize) {
+    #[cfg(feature = "verif")]
+    laythe_core::verif::probe(laythe_core::verif::probes::CACHE_CLEARED);
     self.set_property(inline_slot, None);
   }
 
@@ -112,9 +122,15 @@ impl InlineCache {
   /// for the provided class
   pub fn get_invoke_cache(&self, inline_slot: usize, class: ObjRef<Class>) -> Option<Value> {
     debug_assert!(inline_slot < self.invoke.len());
+    #[cfg(feature = "verif")]
+    if laythe_core::verif::force_cache_miss() {
+      return None;
+    }
     match unsafe { self.invoke.get_unchecked(inline_slot) } {
       Some(cache) => {
         if cache.class == class {
+          #[cfg(feature = "verif")]
+          laythe_core::verif::probe(laythe_core::verif::probes::CACHE_INVOKE_HIT);
           Some(cache.method)
         } else {
           None
@@ -127,11 +143,15 @@ impl InlineCache {
   /// Set the invoke cache at a given slot for the provided
   /// class and method
   pub fn set_invoke_cache(&mut self, inline_slot: usize, class: ObjRef<Class>, method: Value) {
+    #[cfg(feature = "verif")]
+    laythe_core::verif::probe(laythe_core::verif::probes::CACHE_INVOKE_MISS);
     self.set_invoke(inline_slot, Some(InvokeCache { class, method }));
   }
 
   /// Clear the invoke cache at a given slot
   pub fn clear_invoke_cache(&mut self, inline_slot: usize) {
+    #[cfg(feature = "verif")]
+    laythe_core::verif::probe(laythe_core::verif::probes::CACHE_CLEARED);
     self.set_invoke(inline_slot, None);
   }
 
